@@ -496,6 +496,8 @@ inductive SuperErr where
   /-- an oversampling factor that rounds to 0, statistics 'sum' / 'min' / 'max': the loop does not
   run and `field.grid = grid` is applied to the initial `0` resp. `None`: AttributeError -/
   | attribute
+  /-- an empty list of generators: `ModeBasis([], grid)` raises ValueError (`np.stack` of nothing) -/
+  | value
   deriving DecidableEq, Repr
 
 /-- `evaluate_supersampled(gen, grid, (nx, ny))` on a separated grid, statistic 'mean'.  The spacings
@@ -545,6 +547,27 @@ def supersampledStat (st : Stat) (s : Shape) (nx ny : Nat) (xs ys : List Rat) :
   | some gs =>
     if nx = 0 ∨ ny = 0 then .error (if st = .mean then .zeroDiv else .attribute)
     else .ok (combineFields st (xs.length * ys.length) (gs.map fun g => evalSep s g.1 g.2))
+
+/-! ### a list of generators (`evaluate_supersampled([gen, …], grid, …)` → ModeBasis) -/
+
+/-- `for fg in field_generator: modes.append(evaluate_supersampled(fg, …))`: the first failure ends
+the loop -/
+def supersampledListAux (st : Stat) (nx ny : Nat) (xs ys : List Rat) :
+    List Shape → Except SuperErr (List (List Rat))
+  | [] => .ok []
+  | s :: rest =>
+    match supersampledStat st s nx ny xs ys with
+    | .error e => .error e
+    | .ok f =>
+      match supersampledListAux st nx ny xs ys rest with
+      | .error e => .error e
+      | .ok fs => .ok (f :: fs)
+
+/-- … followed by `ModeBasis(modes, grid)`, which rejects an empty list -/
+def supersampledList (st : Stat) (nx ny : Nat) (xs ys : List Rat) :
+    List Shape → Except SuperErr (List (List Rat))
+  | [] => .error .value
+  | s :: rest => supersampledListAux st nx ny xs ys (s :: rest)
 
 /-! ## distance-to-a-decision flags (used only to skip near-boundary points in the tie) -/
 
